@@ -425,3 +425,71 @@ V("c10-benign-exp-rearranged", "C10", "benign", "", "exp window written as value
 V("c10-benign-nbf-le", "C10", "benign", "", "nbf window written with the accept branch first",
   "rfc7519/registry.py", "            raise InvalidClaimError(\"nbf\")\n        if value > (self.now + self.leeway):\n            raise InvalidTokenError()\n        self.check_value(\"nbf\", value)",
   "            raise InvalidClaimError(\"nbf\")\n        if value - self.leeway <= self.now:\n            self.check_value(\"nbf\", value)\n        else:\n            raise InvalidTokenError()")
+
+# ------------------------------------------------------------------------------------------------ C11
+V("c11-ec-minimal-codec", "C11", "break", "R11.1", "EC x exported with the minimal integer codec",
+  "rfc7518/ec_key.py", "            \"x\": _coordinate_to_base64(numbers.x, size),\n            \"y\": _coordinate_to_base64(numbers.y, size),\n        }", "            \"x\": _coordinate_to_base64(numbers.x, (numbers.x.bit_length() + 7) // 8),\n            \"y\": _coordinate_to_base64(numbers.y, size),\n        }")
+V("c11-ec-floor-size", "C11", "break", "R11.1", "EC coordinate size by floor division (P-521 loses an octet)",
+  "rfc7518/ec_key.py", "        numbers = key.public_numbers()\n        size = (numbers.curve.key_size + 7) // 8", "        numbers = key.public_numbers()\n        size = numbers.curve.key_size // 8")
+V("c11-rsa-fixed-width", "C11", "break", "R11.2", "RSA e exported with a fixed 4-octet width",
+  "rfc7518/rsa_key.py", "        return {\"n\": int_to_base64(numbers.n), \"e\": int_to_base64(numbers.e)}", "        return {\"n\": int_to_base64(numbers.n), \"e\": urlsafe_b64encode(numbers.e.to_bytes(4, \"big\")).decode()}")
+V("c11-rsa-private-export-missing-qi", "C11", "break", "R11.3", "RSA private export drops qi",
+  "rfc7518/rsa_key.py", "            \"qi\": int_to_base64(numbers.iqmp),\n", "")
+V("c11-import-without-validation", "C11", "break", "R11.4", "import_key skips validate_dict_key",
+  "rfc7517/models.py", "        if isinstance(value, dict):\n            cls.validate_dict_key(value)\n            raw_key", "        if isinstance(value, dict):\n            raw_key")
+V("c11-validate-skips-use-ops", "C11", "break", "R11.4", "use/key_ops consistency no longer validated",
+  "rfc7517/models.py", "        cls.binding.validate_dict_key_registry(data, cls.value_registry)\n        cls.binding.validate_dict_key_use_operations(data)", "        cls.binding.validate_dict_key_registry(data, cls.value_registry)")
+V("c11-crt-partial-accepted", "C11", "break", "R11.5", "partial CRT parameters accepted",
+  "rfc7518/rsa_key.py", "    if any(props_found):\n        raise ValueError(\"RSA key must include all parameters if any are present besides d\")\n", "")
+V("c11-kty-optional", "C11", "break", "R11.7", "kty no longer required",
+  "registry.py", '    "kty": KeyParameter("Key Type", is_str, required=True),', '    "kty": KeyParameter("Key Type", is_str),')
+V("c11-key-ops-choice-missing", "C11", "break", "R11.7", "deriveBits dropped from key_ops choices",
+  "registry.py", "            \"deriveKey\",\n            \"deriveBits\",\n        ]),", "            \"deriveKey\",\n        ]),")
+V("c11-dict-view-rederived", "C11", "break", "R11.8", "dict-imported keys re-derive their members",
+  "rfc7517/models.py", "            self.validate_dict_key(data)\n            self._dict_value = data\n", "            self.validate_dict_key(data)\n")
+V("c11-benign-ec-inline", "C11", "benign", "", "EC coordinate encoder inlined",
+  "rfc7518/ec_key.py", "            \"x\": _coordinate_to_base64(numbers.x, size),\n            \"y\": _coordinate_to_base64(numbers.y, size),\n        }", "            \"x\": urlsafe_b64encode(numbers.x.to_bytes(size, \"big\")).decode(\"utf-8\"),\n            \"y\": _coordinate_to_base64(numbers.y, size),\n        }")
+
+# ------------------------------------------------------------------------------------------------ C13
+V("c13-whitespace-json", "C13", "break", "R13.2", "thumbprint JSON with default separators",
+  "rfc7638/__init__.py", "    json_data = json.dumps(data, ensure_ascii=True, separators=(\",\", \":\"))", "    json_data = json.dumps(data, ensure_ascii=True)")
+V("c13-unsorted", "C13", "break", "R13.2", "thumbprint members in registry order",
+  "rfc7638/__init__.py", "    sorted_fields = sorted(fields)", "    sorted_fields = list(fields)")
+V("c13-padded-output", "C13", "break", "R13.2", "thumbprint output keeps base64 padding",
+  "util.py", "    return base64.urlsafe_b64encode(s).rstrip(b\"=\")", "    return base64.urlsafe_b64encode(s)")
+V("c13-kid-in-thumbprint", "C13", "break", "R13.1", "optional kid hashed into the thumbprint",
+  "rfc7517/models.py", "        fields.append(\"kty\")", "        fields.append(\"kty\")\n        if \"kid\" in self.dict_value:\n            fields.append(\"kid\")")
+V("c13-ec-y-optional", "C13", "break", "R13.1", "EC y no longer required (dropped from the thumbprint)",
+  "rfc7518/ec_key.py", '"y": KeyParameter("Y Coordinate", "str", private=False, required=True),', '"y": KeyParameter("Y Coordinate", "str", private=False, required=False),')
+V("c13-kid-overwritten", "C13", "break", "R13.4", "ensure_kid overwrites an existing kid",
+  "rfc7517/models.py", "        if \"kid\" not in self.dict_value:\n            self._dict_value[\"kid\"] = self.thumbprint()", "        self.dict_value\n        self._dict_value[\"kid\"] = self.thumbprint()")
+V("c13-keyset-no-kid", "C13", "break", "R13.4", "KeySet.__init__ no longer assigns kids",
+  "_keys.py", "        for key in keys:\n            key.ensure_kid()\n        self.keys = keys", "        self.keys = keys")
+V("c13-ec-minimal", "C13", "break", "R13.3", "EC d exported minimally (PEM-loaded vs JWK-loaded thumbprints differ via x/y? no: digest input)",
+  "rfc7518/ec_key.py", "            \"y\": _coordinate_to_base64(numbers.public_numbers.y, size),", "            \"y\": _coordinate_to_base64(numbers.public_numbers.y, (numbers.public_numbers.y.bit_length() + 7) // 8),")
+V("c13-benign-sort-keys", "C13", "benign", "", "lexicographic order through sort_keys",
+  "rfc7638/__init__.py", "    json_data = json.dumps(data, ensure_ascii=True, separators=(\",\", \":\"))", "    json_data = json.dumps(data, ensure_ascii=True, sort_keys=True, separators=(\",\", \":\"))")
+
+# ------------------------------------------------------------------------------------------------ C14
+V("c14-fallback-first-key", "C14", "break", "R14.1", "unknown kid falls back to the first key",
+  "_keys.py", "        raise InvalidKeyIdError(f'No key for kid: \"{kid}\"')", "        return self.keys[0]")
+V("c14-single-key-any-kid", "C14", "break", "R14.1", "single-key set ignores a non-matching kid",
+  "_keys.py", "        if kid is None and len(self.keys) == 1:", "        if len(self.keys) == 1:")
+V("c14-random-despite-kid", "C14", "break", "R14.2", "guess_key picks randomly although the header names a kid",
+  "jwk.py", "        if not kid and use_random:", "        if use_random:")
+V("c14-no-kid-writeback", "C14", "break", "R14.2", "kid of the randomly chosen key is not recorded",
+  "jwk.py", "            obj.set_kid(rv_key.kid)\n", "")
+V("c14-consume-random", "C14", "break", "R14.2", "validate_compact picks a random key when no kid",
+  "jws.py", "    key: Key = guess_key(public_key, obj)\n    key.check_use(\"sig\")\n    alg: JWSAlgModel = registry.get_alg(headers[\"alg\"])", "    key: Key = guess_key(public_key, obj, True)\n    key.check_use(\"sig\")\n    alg: JWSAlgModel = registry.get_alg(headers[\"alg\"])")
+V("c14-eddsa-key-type", "C14", "break", "R14.3", "EdDSA registered for EC keys in the key-set table",
+  "jws.py", "    KeySet.algorithm_keys[EdDSA.name] = [EdDSA.key_type]", "    KeySet.algorithm_keys[EdDSA.name] = [\"EC\"]")
+V("c14-pick-unfiltered", "C14", "break", "R14.4", "random pick ignores the key type",
+  "_keys.py", "            keys = [k for k in self.keys if k.key_type in key_types]", "            keys = list(self.keys)")
+V("c14-import-dedupes", "C14", "break", "R14.5", "import_key_set skips keys with a kid seen before",
+  "_keys.py", "        for data in value[\"keys\"]:\n            keys.append(cls.registry_cls.import_key(data, parameters=parameters))", "        seen = set()\n        for data in value[\"keys\"]:\n            if data.get(\"kid\") in seen:\n                continue\n            seen.add(data.get(\"kid\"))\n            keys.append(cls.registry_cls.import_key(data, parameters=parameters))")
+V("c14-set-kid-wrong-name", "C14", "break", "R14.6", "CompactSignature.set_kid writes key_id",
+  "rfc7515/model.py", "        self.protected[\"kid\"] = kid", "        self.protected[\"key_id\"] = kid")
+V("c14-skid-not-recorded", "C14", "break", "R14.7", "random sender key without skid header",
+  "jwe.py", "                recipient.add_header(\"skid\", skey.kid)\n", "")
+V("c14-benign-loop-index", "C14", "benign", "", "get_by_kid single-key shortcut with != form",
+  "_keys.py", "        if kid is None and len(self.keys) == 1:\n            return self.keys[0]", "        if kid is None:\n            if len(self.keys) == 1:\n                return self.keys[0]")
